@@ -419,6 +419,7 @@ pub enum WriterServiceMail {
         publisher_handle: InstanceHandle,
         data_writer_handle: InstanceHandle,
         dynamic_data: DynamicData<'static>,
+        handle: Option<InstanceHandle>,
         timestamp: Time,
         reply_sender: OneshotSender<DdsResult<()>>,
     },
@@ -434,6 +435,7 @@ pub enum WriterServiceMail {
         publisher_handle: InstanceHandle,
         data_writer_handle: InstanceHandle,
         dynamic_data: DynamicData<'static>,
+        handle: Option<InstanceHandle>,
         timestamp: Time,
         reply_sender: OneshotSender<DdsResult<()>>,
     },
@@ -442,6 +444,7 @@ pub enum WriterServiceMail {
         publisher_handle: InstanceHandle,
         data_writer_handle: InstanceHandle,
         dynamic_data: DynamicData<'static>,
+        handle: Option<InstanceHandle>,
         timestamp: Time,
         reply_sender: OneshotSender<DdsResult<()>>,
     },
